@@ -50,6 +50,12 @@ Proof.
   split; [exact fdot16_floor_spec | exact fdot16_ceil_spec].
 Qed.
 
+(* color::premultiply_u8 as written in src/color.rs is the function the C12 / C17 value theorems are about, and cannot
+   overflow on bytes *)
+Theorem FX_premultiply_u8_is_the_model :
+  forall c a, 0 <= c <= 255 -> 0 <= a <= 255 -> FixedGen.premultiply_u8 c a = Some (TS.Model.Pixel.premultiply_u8 c a).
+Proof. exact premultiply_u8_eq. Qed.
+
 (* non-vacuity: a 512-px run over 64 px of height has slope 8.0; the first value beyond the fast path takes the 64-bit path *)
 Example FX_example :
   FixedGen.fdot6_div 32768 4096 = Some 524288 /\ FixedGen.fdot6_div 32767 4096 = Some 524272 /\
